@@ -166,6 +166,11 @@ Section OpScal.
       by (intros; ring).
     rewrite lin2_zero by exact HD. ring.
   Qed.
+  Lemma lin2_scal_ext {A B} (D : (A -> F) -> (A -> F) -> B -> F) (HD : linear2 D) (k : F) (x y x' y' : A -> F) b :
+    (forall v, x' v = k * x v) -> (forall v, y' v = k * y v) -> D x' y' b = k * D x y b.
+  Proof.
+    intros Hx Hy. rewrite (proj1 HD x' (fun v => k * x v) y' (fun v => k * y v) Hx Hy). now apply lin2_scal.
+  Qed.
   Lemma lin_add {A B} (T : (A -> F) -> B -> F) (HT : linear T) (x y : A -> F) b :
     T (fun v => x v + y v) b = T x b + T y b.
   Proof. rewrite (lin_comb T HT (fun v => x v + y v) x y 1) by (intros; ring). ring. Qed.
@@ -618,6 +623,69 @@ Section WholeState.
     - exact (whole_state_explicit_covariant s k a l Hk Ha Hl).
     - exact (whole_state_implicit_covariant s k a l).
   Qed.
+  (** *** tracers (dimensionless: specific humidity etc.; passive in the dry equations): the n-th tracer
+      tendency of explicit_terms_full is the assembly [tracer_tendency_explicit_c] and scales with kr;
+      implicit_terms_full returns zero tracers *)
+  Lemma nth_map_dflt {A B} (f : A -> B) (ls : list A) n dA dB :
+    (n < length ls)%nat -> nth n (map f ls) dB = f (nth n ls dA).
+  Proof. intros Hn. rewrite (nth_indep (map f ls) dB (f dA)) by (now rewrite map_length). apply map_nth. Qed.
+
+  Theorem tracer_entry_is_assembly (g0 : @HGrid F) (c0 : @PEcfg F) grav0 orog0 (s : @State F) n k a l :
+    (n < length (s_tr s))%nat -> (k < cK c0)%nat -> (a < hR g0)%nat -> (l < hL g0)%nat ->
+    nth n (s_tr (explicit_terms_full g0 c0 grav0 orog0 s)) zero3 k a l
+    = tracer_tendency_explicit_c g0 c0 (X_of g0 (diagnostic_state g0 (cK c0) s))
+        (tr_of (to_nodal3 g0 (cK c0) (nth n (s_tr s) zero3))) k (a, l).
+  Proof.
+    intros Hn Hk Ha Hl. unfold explicit_terms_full, explicit_terms_of_diag. cbv zeta. cbn [s_tr].
+    set (d := diagnostic_state g0 (cK c0) s).
+    assert (Ld : length (d_tr d) = length (s_tr s)) by (unfold d, diagnostic_state; cbn [d_tr]; now rewrite map_length).
+    rewrite (nth_map_seq _ (length (d_tr d)) n zero3) by (rewrite Ld; exact Hn).
+    rewrite level_nth by exact Hk.
+    unfold explicit_level. cbv zeta. cbn [l_tr].
+    rewrite (nth_map_dflt _ (d_tr d) n zero3) by (rewrite Ld; exact Hn).
+    rewrite sh_memo2_ok by assumption.
+    assert (Et : nth n (d_tr d) zero3 = to_nodal3 g0 (cK c0) (nth n (s_tr s) zero3)).
+    { unfold d, diagnostic_state. cbn [d_tr]. now apply nth_map_dflt. }
+    rewrite Et.
+    exact (tracer_of_is_assembly g0 c0 (X_of g0 d) (tr_of (to_nodal3 g0 (cK c0) (nth n (s_tr s) zero3))) k a l Ha Hl).
+  Qed.
+
+  Theorem whole_state_tracers_covariant (s : @State F) n k a l :
+    (n < length (s_tr s))%nat -> (k < cK c)%nat -> (a < hR g)%nat -> (l < hL g)%nat ->
+    nth n (s_tr (explicit_terms_full g' c' grav' orog' (Sst s))) zero3 k a l
+    = kr * nth n (s_tr (explicit_terms_full g c grav orog s)) zero3 k a l /\
+    s_tr (implicit_terms_full g' c' (Sst s)) = s_tr (implicit_terms_full g c s) /\
+    (forall t, In t (s_tr (implicit_terms_full g c s)) -> t = zero3).
+  Proof.
+    intros Hn Hk Ha Hl. split; [|split].
+    - rewrite (tracer_entry_is_assembly g c grav orog s n k a l Hn Hk Ha Hl).
+      rewrite (tracer_entry_is_assembly g' c' grav' orog' (Sst s) n k a l Hn Hk Ha Hl).
+      cbn [scale_cfg cK scale_state s_tr].
+      assert (EX : X_of g' (diagnostic_state g' (cK c) (Sst s))
+                   = fun p => scale_ncol ku kr kT kg (X_of g (diagnostic_state g (cK c) s) p))
+        by (apply functional_extensionality; intro p; apply diag_covariant).
+      rewrite EX. clear EX.
+      set (X := X_of g (diagnostic_state g (cK c) s)).
+      change (to_nodal3 g' (cK c) (nth n (s_tr s) zero3)) with (to_nodal3 g (cK c) (nth n (s_tr s) zero3)).
+      set (q := tr_of (to_nodal3 g (cK c) (nth n (s_tr s) zero3))).
+      unfold tracer_tendency_explicit_c.
+      change (toM_c g') with (toM_c g). change (clip_c g') with (clip_c g).
+      destruct concrete_operators_homogeneous as (_ & _ & _ & Hd' & _).
+      apply (lin_scal (clip_c g) (clip_c_lin g)). intros w.
+      rewrite Hd'.
+      rewrite (lin_scal (toM_c g) (toM_c_lin g) _ (fun p => tracer_nodal_total c true (X p) (q p) k) kr)
+        by (intros p; exact (tracer_nodal_total_dimensionless ku kr kT kg kR H_rate c true (X p) (q p) k)).
+      rewrite (lin2_scal_ext (divc_c g) (divc_c_lin g) ku
+                 (toM_c g (fun p => hsa_mu (X p) (q p) k)) (toM_c g (fun p => hsa_mv (X p) (q p) k))).
+      + rewrite <- H_rate. ring.
+      + intros v. apply (lin_scal (toM_c g) (toM_c_lin g)). intros p.
+        unfold hsa_mu, scale_ncol, scol. cbn [n_u n_sec2]. ring.
+      + intros v. apply (lin_scal (toM_c g) (toM_c_lin g)). intros p.
+        unfold hsa_mv, scale_ncol, scol. cbn [n_v n_sec2]. ring.
+    - reflexivity.
+    - intros t Ht. cbn [implicit_terms_full s_tr] in Ht. apply in_map_iff in Ht. destruct Ht as (x & E & _). now symmetry.
+  Qed.
+
   (** *** (4)/(5) time stepping.  [step_covariant] / [trajectory_covariant] (Thm/Scaling.v) need, for a
       vector space V with change of scale S u = L u + c0 and time factor tau:
         HF : F' (S u) = (1/tau) L (F u),   HG : G' (S u) = (1/tau) L (G u),
